@@ -69,9 +69,13 @@ def str2msg(text):
         raise ValueError(f'unknown message type {type_!r}')
 
     msg = {}
+    names = set(SPEC_BY_TYPE[type_]['value_names']) | {'time'}
 
     for arg in args:
         name, value = arg.split('=', 1)
+        if name not in names:
+            raise ValueError(f'{type_} message has no parameter {name!r}')
+
         if name in msg:
             raise ValueError(f'{name} given more than once')
 
